@@ -4,7 +4,7 @@ import os
 
 # property -> rules deciding its structural clauses (DESIGN.md section 4)
 PROPS = {
-    'C01': ['DISPATCH', 'ACDUAL', 'ORDTOTAL', 'FRAMERESET', 'MERGE'],
+    'C01': ['DISPATCH', 'ACDUAL', 'SYMIDX', 'ORDTOTAL', 'FRAMERESET', 'MERGE'],
     'C02': ['UNIONCONTRIB', 'PRODUCT', 'WORKLIST', 'COW'],
     'C03': ['SIZEEQ', 'WORKLIST', 'DRAIN', 'COW'],
     'C04': ['KIND', 'SIMMAP', 'COPYALL'],
